@@ -37,6 +37,8 @@ type FifoBuffer[T any] struct {
 	cond sync.Cond
 
 	buffer []T
+	// released is set by ReleaseGoroutines: from then on PopMultiple does not wait for data
+	released bool
 }
 
 func NewFifoBuffer[T any]() (result FifoBuffer[T]) {
@@ -60,6 +62,11 @@ func (this *FifoBuffer[T]) PopMultiple(numberToPop uint) (result []T) {
 	defer this.cond.L.Unlock()
 
 	for len(this.buffer) == 0 {
+		if this.released {
+			// ReleaseGoroutines came before this goroutine got to wait: its Broadcast
+			// woke nobody, waiting now would be for ever
+			return
+		}
 		this.cond.Wait()
 		// this check is used when ReleaseGoroutines is called on waiting goroutine
 		if len(this.buffer) == 0 {
@@ -82,6 +89,7 @@ func (this *FifoBuffer[T]) Length() int {
 
 func (this *FifoBuffer[T]) ReleaseGoroutines() {
 	this.cond.L.Lock()
+	this.released = true
 	this.cond.Broadcast()
 	this.cond.L.Unlock()
 }
